@@ -21,9 +21,15 @@ pub struct Built {
     pub orig: HashMap<usize, (AssetId, u64)>,      // output index -> original asset / value
 }
 
+/// a standard output script: p2wpkh, p2wsh, p2tr, p2sh or p2pkh (blinding goes through the address of the script)
 fn p2wpkh(r: &mut Rng) -> Script {
-    let mut v = vec![0x00, 0x14];
-    v.extend(pools::rbytes(r, 20));
+    let v = match r.next_u32() % 5 {
+        0 => { let mut v = vec![0x00, 0x14]; v.extend(pools::rbytes(r, 20)); v }
+        1 => { let mut v = vec![0x00, 0x20]; v.extend(pools::rbytes(r, 32)); v }
+        2 => { let mut v = vec![0x51, 0x20]; v.extend(pools::rbytes(r, 32)); v }
+        3 => { let mut v = vec![0xa9, 0x14]; v.extend(pools::rbytes(r, 20)); v.push(0x87); v }
+        _ => { let mut v = vec![0x76, 0xa9, 0x14]; v.extend(pools::rbytes(r, 20)); v.extend([0x88, 0xac]); v }
+    };
     Script::from(v)
 }
 
@@ -240,6 +246,19 @@ fn run_case(c: &Value, seed: u64, ci: usize) -> (Vec<(String, Value, String)>, u
                             if vp.blind_value_proof_verify(secp, value + 1, ac, vc) { bad.push(("C05/explicit-proofs/value-proof-accepts-other-value".into(), String::new())); }
                             if let Some(other) = pools::conf_value(&mut r).commitment() {
                                 if vp.blind_value_proof_verify(secp, value, ac, other) { bad.push(("C05/explicit-proofs/value-proof-accepts-other-commitment".into(), String::new())); }
+                            }
+                            // a range proof that is not an exact-value proof: the range merely starts at the claimed value (the commitment
+                            // holds more), or starts below it: neither ties the commitment to the claimed value
+                            {
+                                use elements::secp256k1_zkp::{PedersenCommitment, RangeProof};
+                                let vbf2 = pools::vbf(&mut r);
+                                let real = value + 4_000;
+                                let comm2 = PedersenCommitment::new(secp, real, vbf2.into_inner(), ac);
+                                for (min, tag) in [(value, "range-starts-at-claimed-value"), (value.saturating_sub(1).max(1), "range-starts-below")] {
+                                    if let Ok(p) = RangeProof::new(secp, min, comm2, real, vbf2.into_inner(), &[], &[], pools::secret_key(&mut r), 0, 16, ac) {
+                                        if p.blind_value_proof_verify(secp, value, ac, comm2) { bad.push((format!("C05/explicit-proofs/non-exact-proof-accepted/{}", tag), String::new())); }
+                                    }
+                                }
                             }
                             if ap.blind_asset_proof_verify(secp, pools::asset_id(&mut r), ac) { bad.push(("C05/explicit-proofs/asset-proof-accepts-other-asset".into(), String::new())); }
                             if let Some(g) = pools::conf_asset(&mut r).commitment() {
